@@ -29,6 +29,21 @@ class _InitPool(_VirtualPool):
         if initializer is not None:
             initializer(*initargs)
 
+    def imap_unordered(self, func, iterable, chunksize=1):
+        """Workers of a *spawn* pool are fresh interpreters: process-global settings of the parent (the
+        default dtype) are back at their defaults there.  The stand-in models that for the one global the
+        library's numerics depend on."""
+
+        def in_worker(item):
+            old = torch.get_default_dtype()
+            torch.set_default_dtype(torch.float32)
+            try:
+                return func(item)
+            finally:
+                torch.set_default_dtype(old)
+
+        return super().imap_unordered(in_worker, iterable, chunksize)
+
 
 class _VirtualLoader:
     """Stand-in for DataLoader(num_workers=W>0) with batch_size 1 and no sampler: worker w fetches
@@ -190,6 +205,8 @@ def real_run(func_name, args, timeout=180):
     code = (
         "import sys, warnings; warnings.simplefilter('ignore');"
         "import torch; torch.set_num_threads(1);"
+        + ("torch.set_default_dtype(torch.float64);" if torch.get_default_dtype() == torch.float64 else "")
+        +
         "from pydrobert.torch import command_line as C;"
         f"sys.exit(C.{func_name}(sys.argv[1:]) or 0)"
     )
